@@ -35,7 +35,8 @@ CLAIM = dict(
     "(over R for all modes; also on the exact Q model of DarsiaModel.Transport). Proved by a checker "
     "(exact arithmetic in Q(sqrt d), symmetric pairing, permutation of the product grid) shown sound once over the reals "
     "and evaluated by the kernel per table.",
-    note="transport_density itself (face_to_cell, norms, the loop over the rule; weighted=False, the default weighted=True without and with a "
+    note="Rule.toUnitCell (the map of gauss_reference_cell) is hand-written in the model and tied numerically (4e-16) on every accepted pair; "
+    "max_alias, l1_obligation, rejected_pairs_raise, table/corner_obligations are tie checks on generated tables; transport_density itself (face_to_cell, norms, the loop over the rule; weighted=False, the default weighted=True without and with a "
     "scalar weight image) is tied numerically: real solver objects vs the sum over the model's rule, 1e-13; if the source leaves the "
     "accepted AST subset the committed table is used and only validated numerically (recorded in the evidence); numpy evaluates the literal expressions in floating point (validated against the symbolic values to 1e-15 on every "
     "run); N-D exactness: for d = 2, 3 every polynomial (term list) of per-variable degree <= 2n-1 against the iterated interval "
@@ -218,12 +219,42 @@ def extract_l1(source: str):
             break
     if set(out) != set(L1_LEAN):
         raise ExtractError(f"modes {sorted(out)}")
+    out["__loop_plain__"] = _loop_is_plain_sum(fn)
     return out
+
+
+L1_TAIL = ["transport_density = np.zeros(self.grid.shape, dtype=float)",
+           "for quad_pt, quad_weight in zip(quad_pts, quad_weights):\n    cell_flux = darsia.face_to_cell(self.grid, flat_flux, pt=quad_pt)\n"
+           "    if weighted:\n        weighted_cell_flux = self.cell_weighted_flux(cell_flux)\n        cell_flux_norm = np.linalg.norm(weighted_cell_flux, 2, axis=-1)\n"
+           "    else:\n        cell_flux_norm = np.linalg.norm(cell_flux, 2, axis=-1)\n    transport_density += quad_weight * cell_flux_norm",
+           "if flatten:\n    return np.ravel(transport_density, 'F')\nelse:\n    return transport_density"]
+
+
+def _loop_is_plain_sum(fn) -> bool:
+    """what transport_density does with the rule AFTER the quadrature call: every mode branch is that single call, and the rest of the
+    function is exactly `zeros; for pt, w in zip(pts, weights): density += w * norm([weighted] face_to_cell(flux, pt)); return`
+    (compared on the normalised source, ast.unparse: comments / formatting do not matter, any other statement does)."""
+    body = [st for st in fn.body if not (isinstance(st, ast.Expr) and isinstance(st.value, ast.Constant))]
+    if len(body) != 4 or not isinstance(body[0], ast.If):
+        return False
+    chain = body[0]
+    while True:
+        if len(chain.body) != 1:
+            return False
+        if len(chain.orelse) == 1 and isinstance(chain.orelse[0], ast.If):
+            chain = chain.orelse[0]
+        else:
+            if not (len(chain.orelse) == 1 and isinstance(chain.orelse[0], ast.Raise)):
+                return False
+            break
+    return [ast.unparse(st) for st in body[1:]] == L1_TAIL
 
 
 def emit_l1(l1) -> str:
     L = ["/-- the quadrature call of each branch of `transport_density` (extracted from wasserstein.py) -/",
          "def l1Source : L1Mode → Except Err RuleSource"]
+    L.insert(0, "/-- transport_density does nothing with the rule but the plain weighted sum over zip(points, weights) (structural extraction) -/\n"
+             f"def l1LoopPlain : Bool := {'true' if (l1 or {}).get('__loop_plain__') else 'false'}\n")
     for mode, lean in L1_LEAN.items():
         v = l1.get(mode) if l1 else None
         if v is None:
@@ -580,7 +611,8 @@ def consumer(ctx, d):
     # single-voxel axes (2-D data embedded in 3-D, strips) are forced: there the flux has no component along that axis
     shapes = {1: [(4,), (1,)], 2: [(3, 3), (3, 2), (1, 4), (3, 1)], 3: [(3, 3, 3), (3, 4, 1), (1, 3, 1)]}
     if ctx.big:
-        shapes = {1: [(4,), (1,), (7,)], 2: [(3, 2), (1, 4), (4, 4), (5, 1), (1, 1)], 3: [(2, 3, 2), (1, 2, 3), (3, 3, 4), (3, 1, 3), (1, 1, 4), (1, 1, 1)]}
+        shapes = {1: [(4,), (1,), (7,), (33,)], 2: [(3, 2), (1, 4), (4, 4), (5, 1), (1, 1), (9, 12), (17, 5)],
+                  3: [(2, 3, 2), (1, 2, 3), (3, 3, 4), (3, 1, 3), (1, 1, 4), (1, 1, 1), (5, 6, 4), (9, 3, 3)]}
     reqs = [f"l1rule {m} {dim}" for m in L1_LEAN for dim in DIMS]
     rules = dict(zip(reqs, ctx.model(reqs)))
     worst, n, diffs = 0.0, 0, []
@@ -594,8 +626,10 @@ def consumer(ctx, d):
                 dims_phys = [0.5 * s_ for s_ in shape]
                 im = d.Image(np.zeros(shape), space_dim=dim, dimensions=dims_phys, scalar=True)
                 opts = {"l1_mode": W.L1Mode[mode], "linear_solver": "direct", "formulation": "pressure"}
-                solver = call(lambda: W.WassersteinDistanceNewton(d.generate_grid(im), None, opts))
-                ctx.count(("consumer", mode, dim, shape))
+                # both solver classes inherit transport_density; alternate (every class meets every mode and dimension over the shapes)
+                klass = W.WassersteinDistanceBregman if (len(shape) + sum(shape) + list(L1_LEAN).index(mode)) % 2 else W.WassersteinDistanceNewton
+                solver = call(lambda: klass(d.generate_grid(im), None, opts))
+                ctx.count(("consumer", klass.__name__, mode, dim, shape))
                 if isinstance(solver, Raised):
                     ctx.fail(f"C15:transport_density({mode},dim={dim}):construct", f"solver object cannot be built: {solver!r}", {"call": ["consumer", mode, dim, list(shape)]})
                     continue
@@ -663,7 +697,7 @@ def consumer(ctx, d):
                 if isinstance(tdw0, Raised) or not np.array_equal(np.asarray(tdw0), np.ravel(td, "F")):
                     diffs.append((mode, dim, list(shape), "weighted=True without weight differs from weighted=False", repr(tdw0)[:80]))
                 wimg = rng.integers(1, 9, shape).astype(float) / 4.0
-                wsolver = call(lambda: W.WassersteinDistanceNewton(d.generate_grid(im), d.Image(wimg.copy(), space_dim=dim, dimensions=dims_phys, scalar=True), opts))
+                wsolver = call(lambda: klass(d.generate_grid(im), d.Image(wimg.copy(), space_dim=dim, dimensions=dims_phys, scalar=True), opts))
                 tdw = wsolver if isinstance(wsolver, Raised) else call(wsolver.transport_density, flux.copy(), True, False)
                 if isinstance(tdw, Raised) or np.asarray(tdw).shape != tuple(shape):
                     diffs.append((mode, dim, list(shape), "weighted solver", repr(tdw)[:80]))
@@ -740,11 +774,14 @@ def check_rule(kind, dim, order, r):
     return None
 
 
-def oracle(ctx, d):
+def oracle(ctx, d, wide=False):
     q = d.quadrature
     accepted = []
+    # in a fallback run (source outside the AST subset: no extraction, hence no obligation for a NEW branch) the order range is widened
+    orders = tuple(range(0, 13)) + ("max",) if wide else PROBE_ORDERS
+    ctx.cov["oracle_orders_probed"] = [str(o) for o in orders]
     for dim in DIMS:
-        for o in PROBE_ORDERS:
+        for o in orders:
             r = impl_rule(q.gauss, dim, o)
             if isinstance(r, Raised):
                 ctx.count(("gauss-raises", dim, o), nontrivial=False)
@@ -754,7 +791,7 @@ def oracle(ctx, d):
             accepted.append((dim, o))
             oo = o
             if o == "max":  # nominal n of the alias: the order whose table it returns
-                cands = [k for k in PROBE_ORDERS[:-1] if not isinstance(impl_rule(q.gauss, dim, k), Raised)
+                cands = [k for k in orders[:-1] if not isinstance(impl_rule(q.gauss, dim, k), Raised)
                          and impl_rule(q.gauss, dim, k) == r]
                 if not cands:
                     ctx.fail(f"C15:gauss(dim={dim},order=max):alias", "'max' does not return one of the numbered tables", {"call": ["gauss", dim, "max"]})
@@ -837,7 +874,8 @@ def run(ctx):
     src = REPO / "src" / "darsia" / "utils" / "quadrature.py"
     try:
         l1 = extract_l1((REPO / "src" / "darsia" / "measure" / "wasserstein.py").read_text())
-        ctx.cov["g2_l1_modes"] = {k: list(map(str, v)) for k, v in l1.items()}
+        ctx.cov["g2_l1_modes"] = {k: list(map(str, v)) for k, v in l1.items() if not k.startswith("__")}
+        ctx.cov["g2_l1_loop_is_plain_weighted_sum"] = bool(l1.get("__loop_plain__"))
     except (ExtractError, OSError, SyntaxError, AttributeError, IndexError) as e:
         # the consumer left the accepted subset: keep the committed table; the numeric consumer correspondence below decides
         try:
@@ -878,7 +916,7 @@ def run(ctx):
         ctx.cov["obligations_by_table"] = {f"{a},{b}": r for (a, b), r in zip(acc, res)} | {f"corners,{k}": r for k, r in zip(DIMS, res[len(acc):])}
         numeric_correspondence(ctx, d)
         consumer(ctx, d)
-    accepted = oracle(ctx, d)
+    accepted = oracle(ctx, d, wide=bool(fallback))
     ctx.cov["exhaustive"] = True
     ctx.cov["accepted_by_api"] = [list(map(str, a)) for a in accepted]
     ctx.cov["rule"] = ("exhaustive over dims 1-3 x orders 0..6 and 'max' for gauss and gauss_reference_cell, dims 1-3 for the corner rule; "
